@@ -627,6 +627,8 @@ func (d *deepView) fieldOrigin(v ssa.Value, fr *frame, depth int) string {
 		}
 	case *ssa.Field:
 		return ir.FieldID(x)
+	case *ssa.FieldAddr:
+		return ir.FieldID(x)
 	case *ssa.Slice:
 		return d.fieldOrigin(x.X, r.fr, depth+1)
 	case *ssa.Call:
